@@ -1,0 +1,12 @@
+//go:build verif
+
+package sonic
+
+// VerifSequencedSlots gives the verification harness access to the unexported
+// container behind SlotSequencer. Only compiled with the `verif` build tag.
+type VerifSequencedSlots = sequencedSlots
+
+// VerifNewSequencedSlots is newSequencedSlots for the verification harness.
+func VerifNewSequencedSlots(maxSlots int) *VerifSequencedSlots {
+	return newSequencedSlots(maxSlots)
+}
